@@ -12,7 +12,7 @@ explicit counts, no parentheses):
                                  spec = `true|false`, or `-` when the annotation is not `wf`
 
   Ty  ::= A | V | F | N | NL | C <cid> | L Ty | S Ty | D Ty Ty | T <n> Ty^n | TV Ty | Y Ty
-        | U <n> Ty^n | Lit <n> Val^n | B Ty <ge> <gt> <le> <lt> | P <pred id>
+        | U <n> Ty^n | Lit <n> Val^n | B Ty <ge> <gt> <le> <lt> | P <pred id> | R Ty <pred id>
           (bounds: `_` or an integer number of halves)
   Val ::= n | b0 | b1 | i<int> | f<halves> | s:<text> | y:<text>
         | l <n> Val^n | e <n> Val^n | t <n> Val^n | d <n> (Val Val)^n | c <cid> | o <user class> <id>
@@ -114,6 +114,11 @@ mutual
         pure (.bounded b (← parseOptInt ge) (← parseOptInt gt) (← parseOptInt le) (← parseOptInt lt), r)
       | _ => none
     | "P" :: p :: r => do pure (.validated (← p.toNat?), r)
+    | "R" :: r => do
+      let (b, r) ← parseTy r
+      match r with
+      | p :: r => pure (.refined b (← p.toNat?), r)
+      | _ => none
     | _ => none
   partial def parseTys : Nat → List String → Option (Tys × List String)
     | 0, ts => some (.nil, ts)
@@ -138,6 +143,13 @@ def predTable (p : Nat) (v : Val) : Bool :=
   | 3, .none => false
   | 3, _ => true
   -- 4: never
+  -- 5: isinstance(x, (int, float)) and x == int(x)      (integral value; bools are ints)
+  | 5, .bool _ => true
+  | 5, .int _ => true
+  | 5, .float h => h % 2 == 0
+  -- 6: isinstance(x, (int, float)) and not isinstance(x, bool)
+  | 6, .int _ => true
+  | 6, .float _ => true
   | _, _ => false
 
 def parsePairs (ts : List String) : Option (List (Nat × Nat)) :=
